@@ -82,18 +82,19 @@ def run(ctx: Context) -> None:
                 ds_c = flow.canon(src.args[0]) if ok_src else None
                 want_a = ('call', ('attr', ('param', 'self'), 'drop_geometry'), (), ())
                 want_b = ('attr', ('param', 'self'), 'dataset')
-                ok_ds = ok_src and set(flow.alternatives(src.args[0])) == {want_a, want_b}
+                chosen = flow.resolve(src.args[0]) if ok_src else None
+                ok_ds = branch_ok = False
+                if isinstance(chosen, ast.IfExp):
+                    # (if/else statements assigning one name are normalised to a conditional expression)
+                    test, yes, no = chosen.test, chosen.body, chosen.orelse
+                    if isinstance(test, ast.UnaryOp) and isinstance(test.op, ast.Not):
+                        test, yes, no = test.operand, no, yes
+                    ok_ds = {flow.canon(yes), flow.canon(no)} == {want_a, want_b}
+                    branch_ok = flow.canon(test) == ('param', 'drop_geometry') and flow.canon(yes) == want_a and flow.canon(no) == want_b
                 ctx.check('R05.1', ok_src and ok_ds, "the source is self.drop_geometry() or self.dataset, reduced by utils.extract_vars", fi, rets[0],
                           construct=f"source dataset = {norm_text(src)[:110]}")
-                # which branch drops geometry
-                branch_ok = False
-                for n in walk_no_nested(fi.node):
-                    if isinstance(n, ast.If) and flow.canon(n.test) == ('param', 'drop_geometry'):
-                        b = [norm_text(s) for s in n.body]
-                        o = [norm_text(s) for s in n.orelse]
-                        branch_ok = any('drop_geometry()' in s for s in b) and any('self.dataset' in s and 'drop_geometry' not in s for s in o)
                 ctx.check('R05.1', branch_ok, "geometry is dropped exactly when drop_geometry is true", fi, fi.node,
-                          construct='if drop_geometry: dataset = self.drop_geometry() else: dataset = self.dataset')
+                          construct=f"source = {norm_text(chosen)[:90] if chosen is not None else '?'}")
                 ok_names = False
                 if isinstance(names, ast.ListComp) and len(names.generators) == 1:
                     g = names.generators[0]
